@@ -228,6 +228,15 @@ func (c11) Gen(rng *rand.Rand, tier string, k int) *Case {
 		c.Frag = append(c.Frag, 1+rng.Intn(40))
 	}
 	c.Cap = rng.Intn(3)
+	if rng.Intn(4) == 0 {
+		// fault-injecting configuration (kept apart from the fault-free one): the disk is full
+		// after k more bytes on the n-th open of the file, or the n-th close of a written file fails
+		if rng.Intn(3) > 0 {
+			c.Faults = append(c.Faults, FaultSpec{Kind: "fs-write-budget", At: rng.Intn(600), N: 1 + rng.Intn(2*nops)})
+		} else {
+			c.Faults = append(c.Faults, FaultSpec{Kind: "fs-close-error", N: 1 + rng.Intn(nops)})
+		}
+	}
 	c.Policy = genPolicy(rng)
 	return c
 }
@@ -256,6 +265,14 @@ func (c11) Shrinks(c *Case) []*Case {
 		d := *c
 		d.Cap = 0
 		out = append(out, &d)
+	}
+	for i, f := range c.Faults {
+		if f.At > 0 {
+			d := *c
+			d.Faults = append([]FaultSpec{}, c.Faults...)
+			d.Faults[i].At = f.At / 2
+			out = append(out, &d)
+		}
 	}
 	return out
 }
@@ -293,7 +310,11 @@ func (c11) Run(c *Case, st *Stats) []Violation {
 		}
 	}
 	clientDone := false
+	plan := fsPlan(c.Faults)
 	out := simulate(SimOpts{Policy: c.Policy, Record: c.Record, MaxSteps: 2_000_000}, func(s *simrt.Sim) {
+		if plan != nil {
+			s.SetFaults(plan)
+		}
 		simrt.GoKind("client", func() {
 			defer func() { clientDone = true }()
 			codec, err := helper.NewCsv[csvRow](true)
@@ -322,6 +343,7 @@ func (c11) Run(c *Case, st *Stats) []Violation {
 				case "write", "append", "appendorwrite":
 					var err error
 					wantErr := false
+					firedBefore := plan.TotalFired()
 					switch op.Op {
 					case "write":
 						err = codec.WriteToFile(path, feed(rows))
@@ -335,6 +357,18 @@ func (c11) Run(c *Case, st *Stats) []Violation {
 					case "appendorwrite":
 						err = helper.AppendOrWriteToCsvFile(path, true, feed(rows))
 						model = append(model, rows...)
+					}
+					if fired := plan.TotalFired() - firedBefore; fired > 0 {
+						// a write or close on the file failed inside this operation (disk full after k
+						// bytes, failing close): the operation has to say so; afterwards the file is in
+						// an unknown state and the history ends
+						if err == nil {
+							add("helper.Csv", "io-error-not-reported", regime, fmt.Sprintf("op %d %s returned nil although %d injected write/close faults fired (%v); the rows are not on disk", i, op.Op, fired, plan.FiredKinds()))
+						} else {
+							st.Probes["io-error-reported-by-operation"]++
+						}
+						notes = append(notes, "io fault")
+						return
 					}
 					if wantErr != (err != nil) {
 						add("helper.Csv", "unexpected-error-status", regime, fmt.Sprintf("op %d %s: err=%v, expected error=%v", i, op.Op, err, wantErr))
@@ -444,6 +478,9 @@ func (c11) Run(c *Case, st *Stats) []Violation {
 		})
 	})
 	st.noteSim(out)
+	for k, v := range plan.FiredKinds() {
+		st.Faults[k] += v
+	}
 	if out.Err != nil {
 		return nil
 	}
